@@ -1267,18 +1267,36 @@ where
         end_stream || kawa.body_size != BodySize::Empty,
         "a continuing stream must have a resolved body framing before phasing"
     );
-    kawa.parsing_phase = match kawa.body_size {
-        BodySize::Chunked => ParsingPhase::Chunks { first: true },
-        BodySize::Length(0) => ParsingPhase::Terminated,
-        BodySize::Length(_) => ParsingPhase::Body,
-        BodySize::Empty => ParsingPhase::Chunks { first: true },
+    // The message ends exactly where the peer said so: with this header block
+    // when it carries END_STREAM, otherwise with the later frame that does
+    // (DATA, possibly empty, or trailers). The Flags block pushed above says
+    // the same thing to the writers; phase and flags must not disagree:
+    // - `content-length: 0` without END_STREAM used to be declared Terminated
+    //   here: the writer emitted the header block without END_STREAM, saw a
+    //   terminated and flushed message, and retired the stream. An H2 client
+    //   never saw the end of the response, and the empty DATA+END_STREAM that
+    //   followed hit a closed stream;
+    // - END_STREAM on a response without Content-Length for which none is
+    //   injected (204, 304), or with a non-zero one that describes no payload
+    //   (304), was left in Chunks / Body: the HTTP/1.1 frontend waits for a
+    //   terminated response before it reads its client again, so a keep-alive
+    //   connection was never read again.
+    kawa.parsing_phase = if end_stream {
+        ParsingPhase::Terminated
+    } else {
+        match kawa.body_size {
+            BodySize::Chunked => ParsingPhase::Chunks { first: true },
+            BodySize::Length(_) => ParsingPhase::Body,
+            BodySize::Empty => ParsingPhase::Chunks { first: true },
+        }
     };
     // The phase we just selected must be consistent with the framing: a
-    // length-framed body lands in Body/Terminated, never mid-chunk.
+    // length-framed body that is still to come lands in Body, never mid-chunk.
     debug_assert!(
-        !matches!(kawa.body_size, BodySize::Length(n) if n > 0)
+        end_stream
+            || !matches!(kawa.body_size, BodySize::Length(_))
             || kawa.parsing_phase == ParsingPhase::Body,
-        "a non-empty Content-Length body must transition to ParsingPhase::Body"
+        "a Content-Length body that is still to come must transition to ParsingPhase::Body"
     );
     Ok(())
 }
